@@ -32,7 +32,7 @@ func (c24) Budget(tier string) int {
 	if tier == "thorough" {
 		return 6000
 	}
-	return 160
+	return 320
 }
 
 func (c24) Describe() engine.Info {
